@@ -15,7 +15,9 @@ CONSTANTS
   MaxChanges = 0
   MaxUpdates = 1
   MaxCalls = 0
+  NPages = 1
   ModernUnsub = TRUE
+  ForeignUnsub = FALSE
   Stepwise = TRUE
   Gates = TRUE
   GateNames = {"unsub"}
